@@ -18,7 +18,11 @@ def factsOk : Bool :=
   keyStored == "result[string(pubKey.Marshal())] = true" && keyMapInit == "result := make(map[string]bool)" &&
   sshCallbacksIntoMain == 2 && mainParsesArgsTail &&
   mainDispatch.take 3 == ["if opts.Daemon() && opts.Server() => daemon-over-shell (returns)",
-    "if opts.Server() => command-mode-server (returns)", "if !opts.Daemon() => client (returns)"]
+    "if opts.Server() => command-mode-server (returns)", "if !opts.Daemon() => client (returns)"] &&
+  -- the daemon an SSH session starts is built from the listener's configuration only: its modules are
+  -- `cfg.Modules`, and nothing in the branch consults the command line for more (a module map, another file)
+  daemonOverShellCalls == ["rsyncdconfig.FromDefaultFiles", "rsyncd.WithStderr", "append", "rsyncd.DontRestrict",
+    "rsyncd.NewServer(cfg.Modules, …)", "rsyncd.NewConnection", "srv.HandleDaemonConn"]
 
 theorem facts_ok : factsOk = true := by decide +kernel
 
